@@ -37,6 +37,7 @@ type WDB struct {
 	txSeq   int64
 	commits int64 // forwarded, successful commits
 	frozen  int32
+	passive int32 // race workloads: forward every call without counting, logging or any other shared write
 	// Hook is consulted before the call is forwarded. Returning a non-nil error fails the call
 	// without forwarding. It may block. It runs without WDB.mu held.
 	Hook func(ev *Event) error
@@ -58,8 +59,20 @@ func (d *WDB) Seq() int64 {
 	defer d.mu.Unlock()
 	return d.seq
 }
-func (d *WDB) Freeze()        { atomic.StoreInt32(&d.frozen, 1) }
-func (d *WDB) Frozen() bool   { return atomic.LoadInt32(&d.frozen) == 1 }
+
+// SetPassive switches the interposer to pure forwarding: its own mutex and counters order the
+// database calls of all goroutines and would add happens-before edges the wallet does not have (the
+// race detector would see fewer races). Used by workloads that need neither hooks nor counts.
+func (d *WDB) SetPassive(on bool) {
+	v := int32(0)
+	if on {
+		v = 1
+	}
+	atomic.StoreInt32(&d.passive, v)
+}
+func (d *WDB) isPassive() bool { return atomic.LoadInt32(&d.passive) == 1 }
+func (d *WDB) Freeze()         { atomic.StoreInt32(&d.frozen, 1) }
+func (d *WDB) Frozen() bool    { return atomic.LoadInt32(&d.frozen) == 1 }
 
 func (d *WDB) SetHook(h func(ev *Event) error) {
 	d.mu.Lock()
@@ -88,6 +101,9 @@ func (d *WDB) TakeLog() []Event {
 }
 
 func (d *WDB) event(ev *Event) error {
+	if d.isPassive() {
+		return nil
+	}
 	d.mu.Lock()
 	d.seq++
 	ev.Seq = d.seq
@@ -151,6 +167,9 @@ func roleHas(pcs []uintptr, suffix string) bool {
 func (d *WDB) Close() error { return d.Inner.Close() }
 
 func (d *WDB) BeginTx() (mwdb.DBTransaction, error) {
+	if d.isPassive() {
+		return d.Inner.BeginTx()
+	}
 	role := roleOfCaller()
 	id := atomic.AddInt64(&d.txSeq, 1)
 	t := &wtx{d: d, id: id, write: true, role: role}
@@ -170,6 +189,9 @@ func (d *WDB) BeginTx() (mwdb.DBTransaction, error) {
 }
 
 func (d *WDB) BeginReadTx() (mwdb.ReadTransaction, error) {
+	if d.isPassive() {
+		return d.Inner.BeginReadTx()
+	}
 	role := roleOfCaller()
 	id := atomic.AddInt64(&d.txSeq, 1)
 	t := &wtx{d: d, id: id, role: role}
